@@ -245,3 +245,34 @@ pub fn pending_slot(out_path: &str) {
     std::fs::write(out_path, serde_json::to_string_pretty(&json!({"cases": 4, "findings": findings})).unwrap()).expect("write");
     println!("pending-slot: findings={}", findings.len());
 }
+
+/// zyconf snapshot-first-lookup : does an edit by the owner reach analyses whose inputs were first created inside a snapshot?
+pub fn snapshot_first_lookup() {
+    use zydeco_session::CompilerSession;
+    let dir = std::path::PathBuf::from(crate::common::WORK).join("conc").join(format!("sfl_{}", std::process::id()));
+    let _ = std::fs::remove_dir_all(&dir);
+    std::fs::create_dir_all(&dir).unwrap();
+    let root = dir.join("root.zy");
+    std::fs::write(&root, "()").unwrap();
+    let mut owner = CompilerSession::default();
+    // the owner has never looked the file up; a snapshot does
+    let s1 = owner.snapshot();
+    let a1 = s1.analyze(&root).map(|a| a.outcome().root().is_some());
+    drop(s1);
+    owner.set_overlay(&root, "( (".to_string()).unwrap();   // now a syntax error
+    let s2 = owner.snapshot();
+    let a2 = s2.analyze(&root).map(|a| a.outcome().root().is_some());
+    let a3 = owner.analyze(&root).map(|a| a.outcome().root().is_some());
+    println!("first (valid text) {:?}; after the owner's edit: new snapshot {:?}, owner {:?}", a1.is_ok(), a2.is_ok(), a3.is_ok());
+    // disk edit + refresh
+    std::fs::write(&root, "( (").unwrap();
+    let mut owner2 = CompilerSession::default();
+    let s = owner2.snapshot();
+    let b1 = s.analyze(&root).is_ok();
+    drop(s);
+    std::fs::write(&root, "()").unwrap();
+    let r = owner2.refresh_disk(&root).is_ok();
+    let b2 = owner2.snapshot().analyze(&root).is_ok();
+    println!("disk: first (syntax error) ok={b1}; after write+refresh_disk (ok={r}) of valid text: new snapshot ok={b2}");
+    let _ = std::fs::remove_dir_all(&dir);
+}
